@@ -27,7 +27,7 @@ type stopScenario struct {
 	cancelBeforeError bool
 }
 
-var stopCauses = []string{"eof", "err", "close", "reset", "short", "outofseq", "cancel-idle", "cancel-handler", "handler-err", "handler-err-cancel", "invalid", "unsupported", "unknown-table", "mapper-err", "connect-fail"}
+var stopCauses = []string{"eof", "err", "close", "reset", "short", "outofseq", "cancel-idle", "cancel-handler", "handler-err", "handler-err-cancel", "invalid", "unsupported", "unknown-table", "mapper-err", "connect-fail", "announce-rejected", "announce-lost", "foreign-packet"}
 
 // runTermination covers C05 (termination, nothing left behind, Error() never blocks, handler scope) and
 // C06 (the reason is reported): every stop cause x stop point x reader blocking state x handler speed.
@@ -81,6 +81,7 @@ func runStopScenario(c *Ctx, prop string, h *history, evs [][]byte, idx []int, f
 	}
 	var mapper gobinlog.MysqlTableMapper
 	var mapperFail *tableDef
+	var foreignByte byte
 	cut := cutAfterTx(sc.atTx)
 	switch sc.cause {
 	case "eof", "err", "close", "reset", "short", "outofseq":
@@ -110,11 +111,16 @@ func runStopScenario(c *Ctx, prop string, h *history, evs [][]byte, idx []int, f
 		if !sc.ahead {
 			a.events = evs[:cut]
 		}
-	case "invalid", "unsupported", "unknown-table":
+	case "invalid", "unsupported", "unknown-table", "foreign-packet":
 		var bad []byte
 		switch sc.cause {
 		case "invalid":
 			bad = append([]byte{}, evs[2][:10]...)
+		case "foreign-packet":
+			// a packet whose first byte is none of OK (0x00), EOF (0xfe), ERR (0xff) and whose body is no binlog event:
+			// a protocol violation / corrupted stream, which must not be reported as a clean end
+			bad = c.Rng.Bytes(c.Rng.Pick(0, 1, 5, 18, 40))
+			foreignByte = byte(c.Rng.Pick(0x01, 0x0a, 0xfb, 0xfd, 0x7f, 0x80, 0xfc, 0x02))
 		case "unsupported":
 			bad = rawEvent(c, h.cfg, 29, []byte{1, 'x'})
 		default:
@@ -124,6 +130,9 @@ func runStopScenario(c *Ctx, prop string, h *history, evs [][]byte, idx []int, f
 			}
 		}
 		pre := cutAfterTx(sc.atTx - 1)
+		if sc.cause == "foreign-packet" {
+			a.firstByte = map[int]byte{pre: foreignByte}
+		}
 		a.events = append(append(append([][]byte{}, evs[:pre]...), bad), evs[pre:]...)
 		if !sc.ahead {
 			a.events = a.events[:pre+1]
@@ -144,6 +153,9 @@ func runStopScenario(c *Ctx, prop string, h *history, evs [][]byte, idx []int, f
 		mapper = &hMapper{tables: h.tables, failFor: t.db + "." + t.name}
 	}
 	class := fmt.Sprintf("%s/ahead%v/slow%v/late-cancel%v", sc.cause, sc.ahead, sc.slow, sc.cancelBeforeError)
+	if sc.cause == "foreign-packet" {
+		class += fmt.Sprintf("/first-byte-%#02x", foreignByte)
+	}
 	c.R.Count(class)
 	desc := fmt.Sprintf("cause=%s ahead=%v slow=%v atTx=%d lateCancel=%v cfg=%s units=%v", sc.cause, sc.ahead, sc.slow, sc.atTx, sc.cancelBeforeError, h.cfg, h.kinds)
 	if c.R.Evaluations%23 == 1 {
@@ -165,8 +177,18 @@ func runStopScenario(c *Ctx, prop string, h *history, evs [][]byte, idx []int, f
 		return
 	}
 	defer env.close()
+	if sc.cause == "announce-rejected" || sc.cause == "announce-lost" {
+		// the master answers the checksum announcement (the SET before the dump request) with an ERR packet - the
+		// connection stays healthy - or drops the connection without answering: no reader is ever started
+		reply := strings.TrimPrefix(sc.cause, "announce-")
+		env.m.mu.Lock()
+		env.m.queryReply = func(int, string) string { return reply }
+		env.m.mu.Unlock()
+	}
 	env.s.SetBinlogPosition(gobinlog.Position{Filename: f0, Offset: o0})
 	res := env.runWith(0, a, base, sc.cancelBeforeError)
+	announceFails := sc.cause == "announce-rejected" || sc.cause == "announce-lost"
+	masterCloses := a.terminal == "close" || a.terminal == "reset" || a.terminal == "short" || sc.cause == "announce-lost"
 
 	// ---- correspondence with the protocol model: the observed outcome must be one the LTS admits ----
 	{
@@ -177,7 +199,7 @@ func runStopScenario(c *Ctx, prop string, h *history, evs [][]byte, idx []int, f
 		}
 		// a.events is a prefix of evs, possibly with one injected packet
 		inj := -1
-		if sc.cause == "invalid" || sc.cause == "unsupported" || sc.cause == "unknown-table" {
+		if sc.cause == "invalid" || sc.cause == "unsupported" || sc.cause == "unknown-table" || sc.cause == "foreign-packet" {
 			inj = cutAfterTx(sc.atTx - 1)
 		}
 		for i := range a.events {
@@ -238,11 +260,14 @@ func runStopScenario(c *Ctx, prop string, h *history, evs [][]byte, idx []int, f
 				}
 			}
 		}
-		cf := vh.I(0)
+		cf, sf := vh.I(0), vh.I(0)
 		if sc.cause == "connect-fail" {
 			cf = vh.I(1)
 		}
-		req := vh.L(vh.A("conn_outcomes"), vh.L(vh.I(1), vh.I(1), vh.I(0), vh.I(1)), vh.L(bits...), term, vh.L(vs...), cancelV, cf, vh.I(0), badAt)
+		if announceFails {
+			sf = vh.I(1)
+		}
+		req := vh.L(vh.A("conn_outcomes"), vh.L(vh.I(1), vh.I(1), vh.I(0), vh.I(1)), vh.L(bits...), term, vh.L(vs...), cancelV, cf, sf, badAt)
 		set := c.M.Call(req)
 		obs := []string{"nil", "nil", "0", "closed"}
 		if !res.returned {
@@ -266,7 +291,7 @@ func runStopScenario(c *Ctx, prop string, h *history, evs [][]byte, idx []int, f
 		}
 		if sc.cause == "connect-fail" {
 			obs[3] = "noconn"
-		} else if !res.closedSeen && a.terminal != "close" && a.terminal != "reset" && a.terminal != "short" {
+		} else if !res.closedSeen && !masterCloses {
 			obs[3] = "open"
 		}
 		admitted := false
@@ -299,14 +324,17 @@ func runStopScenario(c *Ctx, prop string, h *history, evs [][]byte, idx []int, f
 	if res.leaked {
 		add("spec", "termination: a library goroutine remains after Stream returned ("+sc.cause+")", "none", "startDumpFromBinlogPosition.func1 still running")
 	}
-	if sc.cause != "connect-fail" && sc.cause != "close" && sc.cause != "reset" && sc.cause != "short" && !res.closedSeen {
+	if sc.cause != "connect-fail" && !masterCloses && !res.closedSeen {
 		add("spec", "termination: the connection to the master was not closed after Stream returned ("+sc.cause+")", "closed", "open")
 	}
 	if res.overlap || res.afterReturn {
 		add("spec", "termination: handler called concurrently or after Stream returned", "", fmt.Sprintf("overlap=%v afterReturn=%v", res.overlap, res.afterReturn))
 	}
 	// ---- C06 ----
-	mustFail := map[string]bool{"handler-err": true, "handler-err-cancel": true, "invalid": true, "unsupported": true, "unknown-table": true, "mapper-err": true, "connect-fail": true}
+	if announceFails && len(res.dumps) > 0 {
+		add("spec", "reporting: a dump was requested although the checksum announcement failed", "no dump request", fmt.Sprintf("%+v", res.dumps))
+	}
+	mustFail := map[string]bool{"announce-rejected": true, "announce-lost": true, "foreign-packet": true, "handler-err": true, "handler-err-cancel": true, "invalid": true, "unsupported": true, "unknown-table": true, "mapper-err": true, "connect-fail": true}
 	if mustFail[sc.cause] && res.streamErr == nil {
 		add("spec", "reporting: Stream returned nil after "+sc.cause, "non-nil error", "nil")
 	}
@@ -616,8 +644,10 @@ func runC08(c *Ctx) {
 }
 
 func genAliasHistory(r *vh.Rng, cfg Cfg, big int) *history {
-	h := genHistory(r, cfg, histOpts{units: 4 + r.Intn(4), maxCols: 1, maxRows: 3, rotations: false, ignorables: false,
-		kindsOnly: []string{"txXid", "autoRows", "txCommit"}})
+	// with file switches (a rotation, a restart) between the transactions: what the library does at a switch must not
+	// reach into the transaction it delivered before it
+	h := genHistory(r, cfg, histOpts{units: 5 + r.Intn(4), maxCols: 1, maxRows: 3, rotations: true, ignorables: false, sameFormat: true,
+		kindsOnly: []string{"txXid", "autoRows", "txCommit", "txXid", "autoRows", "rotation", "restart"}})
 	// replace the tables' columns by view-typed ones and zero timestamps
 	for ti := range h.tables {
 		t := &h.tables[ti]
